@@ -101,7 +101,7 @@ EXPORT errno_t _strcasecmp_s_chk(const char *dest, rsize_t dmax,
         CHK_DEST_OVR("strcasecmp_s", destbos)
     }
 
-    while (*udest && *usrc && dmax) {
+    while (dmax && *udest && *usrc) {
 
         result = toupper(*udest) - toupper(*usrc);
         if (result) {
